@@ -79,6 +79,11 @@ func (c *Ctx) shrink(rp *Replay) {
 	}
 	sig := rp.Violation.Signature
 	budget := 600
+	if cl := rp.Violation.Class; cl == "steps" || cl == "alloc" || cl == "hang" {
+		// every candidate that still violates runs into the budget again (millions of loop
+		// turns): fewer candidates, so that minimising a runaway never meets the watchdog
+		budget = 40
+	}
 	try := func(cand *Scenario) bool {
 		if budget <= 0 {
 			return false
